@@ -820,6 +820,67 @@ def gen_gtypes(rng, tier, add, pools):
                 add("g-cmp", "cmp %s %s %s" % (t, hx(a), hx(b)))
 
 
+# value-space facets of list and union types: enumeration compared member-wise in the value space, length in items
+VCLASSES = {
+    "decimal": [["1", "1.0", "+01"], ["2", "2.00"], ["3", "03.0"], ["-0.5", "-.50"], ["0", "-0", "0.0"], ["7", "7.0"], ["8", "8.00"]],
+    "boolean": [["true", "1"], ["false", "0"]],
+    "int": [["1", "+1", "01"], ["2", "02"], ["-3", "-03"], ["0", "-0"]],
+    "dateTime": [["2000-01-01T00:00:00Z", "1999-12-31T19:00:00-05:00"], ["2001-12-31T23:00:00-02:00", "2002-01-01T01:00:00Z"],
+                 ["2000-06-15T12:00:00", "2000-06-15T12:00:00.0"], ["2000-02-29T23:30:00-01:00", "2000-03-01T00:30:00Z"]],
+    "token": [["a"], ["b"], ["c"], ["ab"]],
+    "double": [["1", "1.0"], ["INF"], ["NaN"], ["-2.5", "-2.50"], ["0", "0.0"]],
+    "U(int+boolean)": [["1", "01"], ["true"], ["false"], ["0", "00"], ["2", "+2"]],
+    "U(decimal+token)": [["1", "1.0"], ["a"], ["b"], ["2.5", "2.50"]],
+    "U(boolean+token)": [["true", "1"], ["false", "0"], ["x"], ["y"]],
+}
+
+
+def gen_list_enum(rng, tier, add, pools):
+    thorough = tier == "thorough"
+    for item, classes in VCLASSES.items():
+        for _ in range(12 if thorough else 3):
+            members = []
+            for _ in range(rng.randrange(1, 4)):
+                members.append([rng.randrange(len(classes)) for _ in range(rng.randrange(1, 5))])
+            enum = "|".join("~".join(classes[c][0] for c in m) for m in members)
+            spec = "L(%s)[enum=%s]" % (item, enum)
+            if rng.random() < 0.3:
+                spec = "L(%s)[enum=%s;%s=%d]" % (item, enum, rng.choice(["maxLength", "minLength", "length"]), rng.randrange(0, 4))
+            inst = [[]]
+            for m in members:
+                inst.append(list(m))
+                for k in range(len(m)):
+                    inst.append(m[:k])                       # every proper prefix, down to the empty list
+                inst.append(m + [rng.randrange(len(classes))])   # a proper extension
+                inst.append([rng.randrange(len(classes))] + m)
+                p = list(m)
+                rng.shuffle(p)
+                inst.append(p)                               # a permutation
+                if m:
+                    q = list(m)
+                    i = rng.randrange(len(q))
+                    q[i] = (q[i] + 1) % len(classes)
+                    inst.append(q)                           # one item changed
+                    inst.append(m[1:])                       # a proper suffix
+            for cl in inst:
+                for rep in range(2):
+                    text = " ".join(rng.choice(classes[c]) if rep else classes[c][-1] for c in cl)
+                    if rng.random() < 0.2:
+                        text = " " + text.replace(" ", "  ") + " "
+                    add("list-enum", "%s %s %s" % (rng.choice(["pe", "pe", "pa"]), spec, hx(text)))
+    # enumeration directly on a union, and length facets counted in items
+    for spec, vals in (("U(int+boolean)[enum=1|false]", ["1", "01", "true", "false", "0", "2", "x"]),
+                       ("U(decimal+token)[enum=1.0|a]", ["1", "1.00", "a", "b", "1.5"]),
+                       ("U(L(int)+boolean)[enum=1~2|true]", ["1 2", "01 +2", "1", "2 1", "true", "1 2 3", ""])):
+        for v in vals:
+            add("union-enum", "pe %s %s" % (spec, hx(v)))
+    for item in ("decimal", "boolean", "U(int+boolean)"):
+        for f in ("length=2", "minLength=2", "maxLength=2", "minLength=1;maxLength=3"):
+            cl = VCLASSES[item]
+            for n in range(0, 5):
+                add("list-len", "pe L(%s)[%s] %s" % (item, f, hx(" ".join(rng.choice(rng.choice(cl)) for _ in range(n)))))
+
+
 def gen_combinators(rng, tier, add, pools):
     thorough = tier == "thorough"
     leaves = ["int", "boolean", "double", "unsignedByte", "decimal", "negativeInteger"]
@@ -881,6 +942,7 @@ def gen_cases(rng, tier):
     gen_duration(rng, tier, add, pools)
     gen_b64_padding(rng, tier, add, pools)
     gen_gtypes(rng, tier, add, pools)
+    gen_list_enum(rng, tier, add, pools)
     gen_combinators(rng, tier, add, pools)
     return cases, pools
 
@@ -1008,6 +1070,8 @@ def spec_judgement(req, impl, spec):
             return None
         want = "-1" if spec == "2" else spec       # DateTimeValidator::compare reports INDETERMINATE as -1
         return "ok" if impl == want else "violates"
+    if op in ("pe", "pa") and spec == "none":
+        return None
     if op in ("xsv", "dv", "pe", "pa"):
         v = {"1": True, "valid": True, "0": False, "invalid": False}.get(impl.split()[0] if impl else "")
         if v is None:
@@ -1045,6 +1109,8 @@ def attribute(req, mode):
             if u == [0x2E]:
                 return "F10"        # the literal is an optional sign followed by a lone '.'
     base = type_base(a[1]) if len(a) > 1 else ""
+    if "U(" in base and "enum=" in a[1]:
+        return "F38"                # enumeration / equality on a union ignores which member type a literal belongs to
     if base == "duration":
         import re as _re
         texts = ["".join(chr(c) for c in collapse(unhx(h))) for h in a[2:]]
